@@ -730,13 +730,19 @@ def rule_S4(repo: Repo) -> RuleResult:
                             res.bad(f, node, construct,
                                     f"representation attribute {a} is re-assigned outside construction and the unifier")
                     else:
-                        readers = [q for q, g in methods.items() if q != name and any(
-                            isinstance(x, ast.Attribute) and attr_chain(x) == ("self", a) and isinstance(x.ctx, ast.Load)
+                        readers = [q for q, g in methods.items() if any(
+                            (isinstance(x, ast.Attribute) and attr_chain(x) == ("self", a) and isinstance(x.ctx, ast.Load))
+                            or (isinstance(x, ast.Call) and norm(x.func) in ("getattr", "hasattr") and len(x.args) >= 2
+                                and norm(x.args[0]) == "self" and isinstance(x.args[1], ast.Constant) and x.args[1].value == a)
                             for x in ast.walk(g.node))]
                         if readers and name not in construction:
-                            raise AnalysisError(f"S4: {name} assigns unknown attribute self.{a} which {readers[0]} reads; "
-                                                f"cannot classify")
-                        res.ok(f, node, construct, "not read by other methods", nontrivial=False)
+                            res.bad(f, node, construct,
+                                    f"{name} stores per-call state on the grouping object (self.{a}) that {readers[0]} reads back "
+                                    f"later: outside construction, the unifier and cached properties no method may write "
+                                    f"instance state, otherwise a call's result can depend on the calls made before it "
+                                    f"(e.g. a memo keyed on the identity of a mask that is refilled in place)")
+                        else:
+                            res.ok(f, node, construct, "not read back by any method", nontrivial=False)
                 else:
                     # store through an attribute: self.<attr>.<x> = ...
                     if a in LOGICAL | REPRESENTATION | {"result_index", "group_ikey"}:
@@ -759,6 +765,13 @@ def rule_S4(repo: Repo) -> RuleResult:
                         continue
                     n += 1
                     res.bad(f, node, f"{norm(node)[:80]} in {name}", "in-place mutator called on grouping state")
+    for name, f in methods.items():
+        for node in ast.walk(f.node):
+            if isinstance(node, ast.Call) and norm(node.func) in ("setattr", "object.__setattr__") and node.args \
+                    and norm(node.args[0]) == "self" and name not in construction:
+                res.bad(f, node, f"{norm(node)[:70]} in {name}", "instance state written through setattr outside construction")
+            if isinstance(node, ast.Attribute) and attr_chain(node) == ("self", "__dict__") and name not in construction:
+                res.bad(f, node, f"self.__dict__ in {name}", "instance dictionary accessed outside construction (hidden state)")
     res.analysed = {"construction_functions": sorted(construction), "stores_examined": n}
     if n < 8:
         raise AnalysisError(f"S4: only {n} attribute stores examined (floor 8)")
